@@ -65,6 +65,12 @@ def program(is_async=True):
         {"t": "snapshot", "sid": 1, "name": "s1", "args": ["x"], "flavor": fl, "lam": False},
         # the postcondition reads OLD: it holds only if OLD.s1 is the object THIS call captured (see truthfn)
         {"t": "ensure", "cid": 2, "args": ["x", "result", "OLD"], "lam": False, "flavor": fl, "err": {"form": "default"}}])
+    # a function whose parameters are all defaulted: it is called WITHOUT any argument; its postcondition hinges on the
+    # identity of what this very call captured (see truthfn)
+    g0 = f("g0", "function", [
+        {"t": "snapshot", "sid": 2, "name": "s2", "args": [], "flavor": fl, "lam": False},
+        {"t": "ensure", "cid": 7, "args": ["result", "OLD"], "lam": False, "flavor": fl, "err": {"form": "default"}}],
+        defaults={"x": "None", "y": "None"})
     m = f("m", "method", [{"t": "require", "cid": 3, "args": ["x"], "lam": False, "flavor": fl, "err": {"form": "default"}}])
     n = f("n", "method", [{"t": "ensure", "cid": 4, "args": ["x"], "lam": False, "flavor": fl, "err": {"form": "default"}}])
     init = {"name": "__init__", "kind": "init", "async": False, "params": ["x", "y"], "defaults": {"x": "None", "y": "None"},
@@ -74,7 +80,7 @@ def program(is_async=True):
     s_ = f("s", "method", [], **{"async": False})
     k0 = {"name": "K0", "bases": [], "root": "DBC", "shape": "plain", "members": [m, n, s_, init],
           "invs": [{"cid": 5, "on": "CALL", "lam": False, "selfarg": True, "err": {"form": "default"}}]}
-    return {"funcs": [f0], "classes": [k0]}
+    return {"funcs": [f0, g0], "classes": [k0]}
 
 
 # verdict kinds of one call: which contract (if any) is falsy for this call
@@ -83,6 +89,8 @@ CALLS = {
     "f0:pre": ({"op": "callf", "f": "f0"}, {1: "F"}),
     "f0:pre6": ({"op": "callf", "f": "f0"}, {6: "F"}),
     "f0:post": ({"op": "callf", "f": "f0"}, {2: "F"}),
+    "g0:ok": ({"op": "callf", "f": "g0", "noargs": True}, {}),
+    "g0:post": ({"op": "callf", "f": "g0", "noargs": True}, {7: "F"}),
     "m:ok": ({"op": "call", "k": 0, "m": "m"}, {}),
     "m:pre": ({"op": "call", "k": 0, "m": "m"}, {3: "F"}),
     "m:inv": ({"op": "call", "k": 0, "m": "m"}, {5: "F"}),
@@ -102,18 +110,21 @@ def truthfn(task_truth):
     """Truth depends on who calls: the argument label 'a:t<i>' or (for invariants) the current task."""
     def tf(run, cid, kw):
         ti = getattr(run.tl, "task", None)
-        if cid == 2 and "OLD" in kw:
-            mine = run.task_caps.get(ti)
-            if mine is not None and getattr(kw["OLD"], "s1", None) is not mine:
+        if cid in (2, 7) and "OLD" in kw:
+            sid = 1 if cid == 2 else 2
+            mine = run.task_caps.get((ti, sid))
+            if mine is not None and getattr(kw["OLD"], "s%d" % sid, None) is not mine:
                 run.event(("foreign-OLD", ti))
                 return "F"  # the call sees a value captured by another call in flight: its verdict changes
         return task_truth.get(ti, {}).get(cid, "T")
     return tf
 
 
-def _note_capture(run, val):
-    run.task_caps[getattr(run.tl, "task", None)] = val
-    return val
+def _note_capture(sid):
+    def note(run, val):
+        run.task_caps[(getattr(run.tl, "task", None), sid)] = val
+        return val
+    return note
 
 
 class Sched:
@@ -126,7 +137,7 @@ class Sched:
 def make_op(name, ti):
     op, _ = CALLS[name]
     op = dict(op)
-    if op["op"] not in ("new", "reinit"):
+    if op["op"] not in ("new", "reinit") and not op.pop("noargs", False):
         op["args"] = {"x": "a:t%d" % ti}
     else:
         op["args"] = {}
@@ -139,9 +150,10 @@ def setup_run(loaded, task_truth):
     run.hooks[("truthfn",)] = truthfn(task_truth)
     run.gate_actions = {}
     run.task_caps = {}
-    run.hooks[("wrapcap", 1)] = _note_capture
-    for kind, ident in (("cond", 1), ("cond", 2), ("cond", 3), ("cond", 4), ("cond", 6), ("cap", 1), ("body", "f0"),
-                        ("body", "K0.m"), ("body", "K0.n")):
+    run.hooks[("wrapcap", 1)] = _note_capture(1)
+    run.hooks[("wrapcap", 2)] = _note_capture(2)
+    for kind, ident in (("cond", 1), ("cond", 2), ("cond", 3), ("cond", 4), ("cond", 6), ("cond", 7), ("cap", 1), ("cap", 2),
+                        ("body", "f0"), ("body", "g0"), ("body", "K0.m"), ("body", "K0.n")):
         tag = ("gate", kind, ident)
         run.hooks[("gate", kind, ident)] = (lambda t: (lambda r: vrt.Yield(t)))(tag)
     return run
@@ -299,7 +311,8 @@ def run_thread_schedule(loaded, names, mode, schedule):
         run.tl = threading.local()
         run.hooks[("truthfn",)] = truthfn(task_truth)
         run.task_caps = {}
-        run.hooks[("wrapcap", 1)] = _note_capture
+        run.hooks[("wrapcap", 1)] = _note_capture(1)
+        run.hooks[("wrapcap", 2)] = _note_capture(2)
         V.begin(run, global_=True)
         try:
             ex = RUN.Executor(loaded, run)
@@ -326,8 +339,8 @@ def run_thread_schedule(loaded, names, mode, schedule):
                 return hook
 
             # threads can also be switched INSIDE an invariant's condition (it is synchronous: no switch point for tasks)
-            for key in (("cond", 1), ("cond", 2), ("cond", 3), ("cond", 4), ("cond", 5), ("cond", 6), ("cap", 1), ("body", "f0"),
-                        ("body", "K0.m"), ("body", "K0.n"), ("body", "K0.__init__")):
+            for key in (("cond", 1), ("cond", 2), ("cond", 3), ("cond", 4), ("cond", 5), ("cond", 6), ("cond", 7), ("cap", 1),
+                        ("cap", 2), ("body", "f0"), ("body", "g0"), ("body", "K0.m"), ("body", "K0.n"), ("body", "K0.__init__")):
                 run.hooks[key] = gate_hook(None)
 
             repr_gate = gate_hook(None)
@@ -470,7 +483,7 @@ def check_scenario(ctx, names, mode, is_async, schedules):
                 return
 
 
-SEGMENTS = {"reinit": 1, "s:ok": 1, "s:inv": 1, "f0:ok": 5, "f0:pre": 3, "f0:pre6": 2, "f0:post": 5, "m:ok": 3, "m:pre": 2, "m:inv": 1, "n:ok": 3, "n:post": 3, "n1:post": 3,
+SEGMENTS = {"g0:ok": 4, "g0:post": 4, "reinit": 1, "s:ok": 1, "s:inv": 1, "f0:ok": 5, "f0:pre": 3, "f0:pre6": 2, "f0:post": 5, "m:ok": 3, "m:pre": 2, "m:inv": 1, "n:ok": 3, "n:post": 3, "n1:post": 3,
             "new": 1, "new:inv": 1}
 
 
@@ -496,6 +509,7 @@ def st_scenario(draw):
 FIXED = [
     (["f0:ok", "f0:pre"], True), (["f0:pre", "f0:ok"], True), (["f0:pre", "f0:pre"], True), (["f0:pre6", "f0:pre"], True), (["f0:pre6", "f0:pre6"], True), (["f0:pre", "f0:pre6"], True),
     (["f0:pre", "f0:pre"], False), (["f0:pre6", "f0:pre6"], False), (["f0:post", "f0:ok"], True), (["f0:ok", "f0:post"], True),
+    (["g0:ok", "g0:ok"], True), (["g0:post", "g0:ok"], True), (["g0:ok", "g0:post"], False), (["g0:ok", "g0:ok"], False),
     (["m:ok", "n:post"], True), (["m:inv", "n:ok"], True), (["m:ok", "m:pre"], True), (["n:ok", "n1:post"], True),
     (["new:inv", "m:ok"], True), (["f0:ok", "f0:pre"], False), (["m:ok", "n:post"], False), (["f0:post", "f0:ok"], False),
     # one thread is inside the invariant's condition (of the same or of another object) when the other one's is due
